@@ -420,3 +420,151 @@ def r11_backward_array_copies(ctx):
 
 
 RULES += [r11_backward_array_copies]
+
+
+def r12_cast_type_guard(ctx):
+    ctx.rule("C11.r12", "backward exec(int_cast): the NUMERICAL backward_assign(dst, src) is reached only where neither operand is a "
+             "Boolean (the numerical operation does not reach the Boolean component, so a Boolean destination would keep the value "
+             "the postcondition requires); otherwise the destination is forgotten", floor=1)
+    infos = _stmts.statement_table(ctx.db)
+    n = 0
+    for fn in ctx.db.fns(ABS, cpk=NPT, name="exec"):
+        info = _stmts.stmt_info_for(fn, infos)
+        if info is None or info.name != "int_cast_stmt":
+            continue
+        body = fn["body"]
+        g = paths.guards(body)
+        for c in walk(body):
+            if not (is_call(c, name="backward_assign") and is_field(obj(c), "m_pre")):
+                continue
+            n += 1
+
+            def atom_for(acc):
+                def atom(x):
+                    x = strip(x)
+                    if is_call(x, name="is_bool") and any(is_call(y, name=acc) for y in walk(x.get("o"))):
+                        return 1
+                    return 0
+                return atom
+            gs = g.get(id(c), ())
+            ok = all(guard_truth(gs, atom_for(acc), body) is False for acc in ("dst", "src"))
+            if ok:
+                ctx.ok("exec(int_cast): numerical backward_assign only for non-Boolean operands", fn, c)
+            else:
+                ctx.bad("intra_necessary_preconditions_abs_transformer::exec(int_cast_stmt&) applies the numerical backward_assign(dst, "
+                        "src) without having excluded a Boolean operand: for b := trunc(x) the Boolean value of b required by the "
+                        "postcondition (b is false at a failing assert(b)) stays as a constraint on the OLD b", fn, c,
+                        sig="cast-backward-assign-unguarded")
+    if n == 0:
+        # no numerical backward assignment at all: the destination must then be forgotten (decided by C11.r1)
+        ctx.ok("exec(int_cast): no numerical backward_assign", None, None)
+
+
+def r13_dominance_root(ctx):
+    ctx.rule("C11.r13", "forward-backward analyzer: assertions are discharged with dominance relative to the block the FORWARD pass "
+             "starts at - the root given to dominator_tree() and the block looked up by discharge_assertions() are the `entry` "
+             "argument handed to the forward analyzer, never m_cfg.entry() (a block before `entry` is bottom for the forward pass, "
+             "dominates everything and would discharge every assertion)", floor=2)
+    FBA = "crab::analyzer::intra_forward_backward_analyzer"
+    fns = ctx.db.fns(BWD, cpk=FBA)
+    if not ctx.need(fns, "intra_forward_backward_analyzer methods", "C11.r13"):
+        return
+    n = 0
+    for fn in fns:
+        body = fn["body"]
+        fruns = [c for c in walk(body) if is_call(c, name="run") and c.get("o") is not None and not is_this(deref(c.get("o"))) and
+                 len(c.get("a", [])) == 3]
+        doms = [c for c in walk(body) if is_call(c, name="dominator_tree")]
+        if doms:
+            for dcall in doms:
+                n += 1
+                root = strip(dcall["a"][1]) if len(dcall.get("a", [])) > 1 else None
+                starts = [strip(c["a"][0]) for c in fruns]
+                if root is not None and starts and all(same_expr(root, s0) for s0 in starts):
+                    ctx.ok("dominator tree rooted at the forward entry", fn, dcall)
+                else:
+                    ctx.bad("intra_forward_backward_analyzer::%s roots the dominator tree at `%s` while the forward pass starts at `%s`" %
+                            (fn["name"], src(root) if root is not None else "?", ", ".join(src(s0) for s0 in starts) or "?"), fn, dcall,
+                            sig="dominance-root-not-forward-entry")
+        if fn["name"] == "discharge_assertions":
+            n += 1
+            uses = [c for c, ps in nodes_not_in_log(body, lambda x: is_call(x, name="entry") and is_field(obj(x), "m_cfg"))]
+            if uses:
+                ctx.bad("intra_forward_backward_analyzer::discharge_assertions looks at m_cfg.entry() instead of the block the forward "
+                        "pass started at", fn, uses[0], sig="discharge-uses-cfg-entry")
+            else:
+                ctx.ok("discharge_assertions does not consult m_cfg.entry()", fn, body)
+    if n == 0:
+        ctx.fail("rule C11.r13: dominator_tree call / discharge_assertions not found")
+
+
+def r14_rerun(ctx):
+    ctx.rule("C11.r14", "necessary_preconditions_fixpoint_iterator: the tables that process_post() / run_backward() fill by INSERTION "
+             "(which never overwrites) are cleared on every path before a run starts, so a second run does not report the "
+             "preconditions (or use the forward invariants) of the first", floor=2)
+    NP = "crab::analyzer::necessary_preconditions_fixpoint_iterator"
+    fns = ctx.db.fns(BWD, cpk=NP)
+    if not ctx.need(fns, "necessary_preconditions_fixpoint_iterator methods", "C11.r14"):
+        return
+    # tables filled by insert() (not operator[] / insert_or_assign)
+    filled = {}
+    for fn in fns:
+        for c in walk(fn["body"]):
+            if is_call(c, name="insert") and is_field(obj(c)) and is_this(deref(obj(c)).get("b")):
+                filled.setdefault(deref(obj(c))["n"], []).append(fn["name"])
+    clearers = {}
+    for fn in fns:
+        cl = {deref(obj(c))["n"] for c in walk(fn["body"]) if is_call(c, name="clear") and is_field(obj(c)) and is_this(deref(obj(c)).get("b"))}
+        if cl and not fn.get("params"):
+            clearers[fn["name"]] = cl
+    n = 0
+    for fn in fns:
+        if fn["name"] != "run_backward":
+            continue
+        body = fn["body"]
+
+        def gen(x):
+            out = []
+            if x.get("k") == "call" and callee(x):
+                nm = callee(x)["name"]
+                if nm == "clear" and is_field(obj(x)) and is_this(deref(obj(x)).get("b")):
+                    out.append("clear:" + deref(obj(x))["n"])
+                if (x.get("o") is None or is_this(deref(x.get("o")))) and nm in clearers:
+                    out.extend("clear:" + t for t in clearers[nm])
+            return out
+        try:
+            fl = paths.MustEvents(gen)
+            fl.run(body)
+        except paths.Unstructured:
+            ctx.skipped("C11.r14|%s" % fn["psig"], rid="C11.r14")
+            continue
+        # the run itself: the base class' run(), or delegation to another overload (which is checked on its own)
+        starts = [c for c in walk(body) if is_call(c, name=("run", "run_backward")) and (c.get("o") is None or is_this(deref(c.get("o"))))]
+        fills = [c for c in walk(body) if is_call(c, name="insert") and is_field(obj(c)) and is_this(deref(obj(c)).get("b"))]
+        for c in starts + fills:
+            n += 1
+            st = fl.at.get(id(c)) or frozenset()
+            if is_call(c, name="run_backward"):
+                need = []            # the callee overload clears
+            elif is_call(c, name="run"):
+                need = sorted(filled)
+            else:
+                need = [deref(obj(c))["n"]]
+            miss = [t for t in need if ("clear:" + t) not in st]
+            if miss:
+                ctx.bad("necessary_preconditions_fixpoint_iterator::run_backward reaches `%s` without having cleared %s: these tables "
+                        "are filled with insert(), which keeps the entries of a previous run, so the second run_backward() on the "
+                        "same object returns the first run's preconditions" % (src(c)[:50], ", ".join(miss)), fn, c,
+                        sig="rerun-stale:%s" % ",".join(miss))
+            else:
+                ctx.ok("run_backward: tables reset before `%s`" % src(c)[:30], fn, c)
+    if n == 0:
+        ctx.fail("rule C11.r14: run_backward not found")
+
+
+def r15_backward_array_stores(ctx):
+    from . import C14
+    C14.r9_backward_stores(ctx, rid="C11.r15")
+
+
+RULES += [r12_cast_type_guard, r13_dominance_root, r14_rerun, r15_backward_array_stores]
